@@ -437,3 +437,6 @@ def run(tier, seed):
     shards.sort(key=lambda s: 0 if s[0] == "eq" and s[1] == 4 else 1)
     col = run_shards(_shard, shards)
     return col, {"exhaustive": True, "lattice": LAT, "amounts": AMOUNTS}
+
+
+RULE += (' Pairs with equal ids (assigned, copy, deepcopy, from_dict, restarted counter) and pairs carried by different individual classes (5 x 5 class pairs): equality, hash, membership, set, Archive.remove.')
